@@ -164,6 +164,23 @@ add('C20', 'exploration',
     '(peer uses a real indexing HPACK encoder) must be delivered exactly.',
     'Racing frames are those that were legal had the reset not happened; more than 2^16 closed streams in between is outside the documented bound.')
 
+add('C23', 'exploration',
+    'runtime monitoring: round-trip oracle through a real client/server pair + state-neutrality snapshots and differential twin',
+    'All 256 weights (exhaustive every run) plus defaults, dependencies and exclusive flags go through prioritize() and '
+    'send_headers(priority_*) to a real server whose PriorityUpdated (and RequestReceived.priority_updated link) must match; wire '
+    'fields checked independently; refusals for servers / bad weights / self-dependency; every received PRIORITY frame must '
+    'yield exactly one PriorityUpdated and leave an observable-state snapshot unchanged, and a twin that never received the '
+    'frames must behave identically in a continuation with request, response, push and data.',
+    'depends_on >= 2^31 is not representable and belongs to C29.')
+
+add('C24', 'exploration',
+    'runtime monitoring: reaction oracle from an RFC 7838 table over an exhaustive send/receive grid + differential twin for servers',
+    'Sending grid (role x origin/stream/both/neither x 10 stream states) and receiving grid (role x 13 stream-progress states x '
+    'origin present/absent) are enumerated on every run; events must carry the given origin or the request :authority and '
+    'only before response headers; ignored frames must leave no event, no output and - on servers - no behavioural difference '
+    'against a twin in a continuation that includes a push.',
+    'Stream advertisements after only an informational response, on reserved streams, and ALTSVC received after only a 1xx are undetermined.')
+
 NOT_BUILT_REASON = 'check not built yet in this session (planned in DESIGN.md; no verdict claimed)'
 
 def main():
